@@ -5,7 +5,9 @@ ASSUMPTIONS = [
     'detail::alignedMalloc/alignedFree replaced by their contract (fresh block aligned as requested; the real address arithmetic is C44)',
     'sequential consistency for the atomics (interleaving semantics at atomic-operation granularity)',
 ]
-OUTSIDE = ('block sizes other than those listed; more operations / threads / scheduler rounds than stated per instance; more than '
+OUTSIDE = ('ACTIVE CHECK = instance intrude256 only (lock protocol of bytesAllocated vs. grabFromCentralStore at one scheduling point, '
+           'first block aligned/carved correctly); the history / cross-thread / thread-exit instances are written but disabled (too slow, '
+           'see NOTES.md); block sizes other than those listed; more operations / threads / scheduler rounds than stated per instance; more than '
            'VF_MQ_CAP elements ever enqueued into the central store; weak-memory reorderings; allocation failure')
 
 _SHIM = '/verif/harness/C41/shim'
